@@ -38,6 +38,57 @@ class PermSet:
         for x in xs:
             self.add(x)
 
+    def _has(self, xs, x):
+        return any(y is x or y == x for y in xs)
+
+    def discard(self, x):
+        self.items = [y for y in self.items if not (y is x or y == x)]
+
+    def remove(self, x):
+        if x not in self:
+            raise KeyError(x)
+        self.discard(x)
+
+    def clear(self):
+        self.items = []
+
+    def copy(self):
+        return PermSet(self.h, list(self.items))
+
+    def intersection_update(self, *others):
+        for o in others:
+            o = list(o.items) if isinstance(o, PermSet) else list(o)
+            self.items = [y for y in self.items if self._has(o, y)]
+
+    def difference_update(self, *others):
+        for o in others:
+            o = list(o.items) if isinstance(o, PermSet) else list(o)
+            self.items = [y for y in self.items if not self._has(o, y)]
+
+    def union(self, *others):
+        r = self.copy()
+        for o in others:
+            r.update(o.items if isinstance(o, PermSet) else o)
+        return r
+
+    def intersection(self, *others):
+        r = self.copy()
+        r.intersection_update(*others)
+        return r
+
+    def difference(self, *others):
+        r = self.copy()
+        r.difference_update(*others)
+        return r
+
+    __or__ = union
+    __and__ = intersection
+    __sub__ = difference
+
+    def __ior__(self, o):
+        self.update(o.items if isinstance(o, PermSet) else o)
+        return self
+
     def __len__(self):
         return len(self.items)
 
@@ -87,6 +138,32 @@ class AbsExtractor:
         return f"AbsExtractor({self.name})"
 
 
+class WordAut:
+    """pyahocorasick contract with the occurrence of every added word fixed to true."""
+
+    def __init__(self):
+        self.words = []
+
+    def add_word(self, w, value):
+        for i, (x, v) in enumerate(self.words):
+            if x == w:
+                self.words[i] = (w, value)
+                return False
+        self.words.append((w, value))
+        return True
+
+    def make_automaton(self):
+        pass
+
+    def __len__(self):
+        return len(self.words)
+
+    def iter(self, text):
+        if not self.words:
+            raise AttributeError("Not an Aho-Corasick automaton yet")
+        return [(0, v) for w, v in self.words]
+
+
 class StubAut:
     def __init__(self, entries):
         self.entries = entries
@@ -132,17 +209,37 @@ class HTok(common.Harness):
             filt = eng.choose([z3.Int(f"filt{i}") == j for j in range(3)])  # unfiltered / case-sensitive / case-insensitive
             exts.append((AbsExtractor(f"E{i}", [] if filt == 0 else ["w"], 0 if filt < 2 else 2, tok), filt))
             self.sym.append((k, s, e, filt))
-        tk = T.AhocorasickTokenizer(extractors=[])
-        tk.extractors = [e for e, _ in exts]
-        tk.unfiltered_extractors = PermSet(self, [e for e, f in exts if f == 0])
-        tk.case_sensitive_filter = StubAut([(True, [e]) for e, f in exts if f == 1])
-        tk.case_insensitive_filter = StubAut([(True, [e]) for e, f in exts if f == 2])
-        tk.extractor_positions = {id(e): i for i, (e, _) in enumerate(exts)}
-        text = Txt([("sub", z3.IntVal(0), self.n)], self.n)
+        # the tokenizer is built by the real __post_init__ (sets are PermSets, automata report every added word)
+        import ahocorasick
+
+        self.interp.stubs[ahocorasick.Automaton] = lambda *a, **k: WordAut()
         self.identity_order = True
-        ref = self.interp.call(T.Tokenizer.tokenize, (tk, text), {})
+        tk = self.interp.instantiate(T.AhocorasickTokenizer, (), {"extractors": [e for e, _ in exts]})
+        text = Txt([("sub", z3.IntVal(0), self.n)], self.n)
+        # the method the instance would run (an override in the subclass included)
+        tokenize = type(tk).tokenize
+
+        def content(v):
+            if isinstance(v, PermSet):
+                return ("set", tuple(sorted(id(x) for x in v.items)))
+            if isinstance(v, WordAut):
+                return ("aut", tuple((w, tuple(id(x) for x in es)) for w, es in v.words))
+            if isinstance(v, (set, frozenset)):
+                return ("set", tuple(sorted(id(x) for x in v)))
+            if isinstance(v, (list, tuple)):
+                return ("seq", tuple(id(x) for x in v))
+            if isinstance(v, dict):
+                return ("map", tuple(sorted((repr(k), id(x)) for k, x in v.items())))
+            return None
+
+        # attribute names, the objects they hold, and the contents of the containers among them
+        snap = lambda: sorted((k, id(v), content(v)) for k, v in vars(tk).items())
+        before = snap()
+        self.identity_order = True
+        ref = self.interp.call(tokenize, (tk, text), {})
+        self.state_unchanged = before == snap()
         self.identity_order = False
-        got = self.interp.call(T.Tokenizer.tokenize, (tk, text), {})
+        got = self.interp.call(tokenize, (tk, text), {})
         return ref, got
 
     def witness(self, m):
@@ -157,7 +254,11 @@ class HTok(common.Harness):
             return [self.check("C15:tokenize:no_exception:" + type(out).__name__, False, self.witness)]
         (a_all, a_ct), (b_all, b_ct) = out
         same = len(a_ct) == len(b_ct) and all(x[1] is y[1] and x[0] == y[0] for x, y in zip(a_ct, b_ct))
-        return [self.check("C15:token_stream_independent_of_set_iteration_order", z3.BoolVal(same), self.witness)]
+        return [
+            self.check("C15:token_stream_independent_of_set_iteration_order", z3.BoolVal(same), self.witness),
+            # frame condition: a call leaves nothing behind on the (shared, module-level) tokenizer
+            self.check("C15:tokenize_leaves_the_tokenizer_object_unchanged", z3.BoolVal(self.state_unchanged), self.witness),
+        ]
 
 
 class HMerge(common.Harness):
@@ -302,7 +403,11 @@ import json, sys
 from eyecite import get_citations
 out = []
 for t in json.loads(sys.argv[1]):
-    cs = get_citations(t)
+    try:
+        cs = get_citations(t)
+    except Exception as ex:
+        out.append(["raised", type(ex).__name__])
+        continue
     out.append([[type(c).__name__, list(c.span()), list(c.full_span()), {k: v for k, v in c.groups.items()}, {k: v for k, v in vars(c.metadata).items() if isinstance(v, (str, int)) or v is None}, sorted((e.short_name, e.reporter.short_name) for e in getattr(c, "exact_editions", ())), sorted((e.short_name, e.reporter.short_name) for e in getattr(c, "variation_editions", ())), getattr(getattr(c, "edition_guess", None), "short_name", None), (hash(c) if type(c).__name__ not in ("IdCitation", "UnknownCitation") and c.groups.get("page", 1) is not None else None)] for c in cs])
 print(json.dumps(out))
 """
@@ -316,6 +421,68 @@ def run_with_seed(seed, texts):
     if r.returncode != 0:
         return None, r.stderr[-400:]
     return json.loads(r.stdout.strip().splitlines()[-1]), None
+
+
+HISTORY_TEXTS = ["Roe, 410 U.S. at ___.", "Foo v. Bar, 1 U.S. ___ (2020). Id. at 5.", "See 1 Minn. L. Rev. ___ (2020).", "Foo v. Bar, 1 U.S. 1, 2 S. Ct. 3 (1999). Bar at 5."]
+
+
+def history_replay(texts):
+    """one process, every text extracted twice in a row and once more after all the others; each result must
+    equal the result of a single call in a fresh process."""
+    single = []
+    for t in texts:
+        out, err = run_with_seed(0, [t])
+        if out is None:
+            return ("error", err)
+        single.append(out[0])
+    seq = [t for t in texts for _ in (0, 1)] + list(texts)
+    out, err = run_with_seed(0, seq)
+    if out is None:
+        return ("error", err)
+    for k, (t, got) in enumerate(zip(seq, out)):
+        want = single[texts.index(t)]
+        if got != want:
+            return ("differs", {"text": t, "call_number": k + 1, "fresh": want, "after_history": got})
+    return ("same", None)
+
+
+THREAD_SNIPPET = r"""
+import json, sys, threading, time
+from eyecite import get_citations
+texts = json.loads(sys.argv[1])
+def snap(t):
+    try:
+        return [[type(c).__name__, list(c.span()), {k: v for k, v in c.groups.items()}] for c in get_citations(t)]
+    except Exception as ex:
+        return ["raised", type(ex).__name__]
+base = [snap(t) for t in texts]
+sys.setswitchinterval(1e-6)
+bad = []
+stop = time.time() + float(sys.argv[2])
+def work(k):
+    i = k
+    while time.time() < stop and not bad:
+        j = i % len(texts)
+        r = snap(texts[j])
+        if r != base[j]:
+            bad.append({"text": texts[j], "sequential": base[j], "threaded": r})
+        i += 1
+ths = [threading.Thread(target=work, args=(k,)) for k in range(8)]
+[t.start() for t in ths]
+[t.join() for t in ths]
+print(json.dumps(bad[:1]))
+"""
+
+
+def thread_replay(texts, seconds=20):
+    """8 threads share the default tokenizer; every result must equal the sequential one.  A difference is a
+    reproduced violation; agreement proves nothing (schedules are not enumerated)."""
+    env = dict(os.environ)
+    r = subprocess.run(["/venv/bin/python", "-c", THREAD_SNIPPET, json.dumps(texts), str(seconds)], capture_output=True, text=True, env={**env, **({"PYTHONPATH": common.REPO} if common.REPO != "/repo" else {})}, cwd=common.REPO, timeout=seconds + 120)
+    if r.returncode != 0:
+        return ("error", r.stderr[-400:])
+    bad = json.loads(r.stdout.strip().splitlines()[-1])
+    return ("differs", bad[0]) if bad else ("same", None)
 
 
 def seed_replay(texts, seeds=(0, 1, 2, 3, 4, 5)):
@@ -370,7 +537,7 @@ def check(rep):
     quick = rep.tier == "quick"
     K = 2 if quick else 3
     rep.bounds.append(f"(a) {K} abstract extractors (unfiltered / case-sensitive / case-insensitive) each yielding one candidate token of symbolic kind and offsets, every iteration order of every set; (b) merge of two citation tokens whose edition tuples are drawn from a pool of 4 editions (nominative, two ordinary, one sharing a short_name with another reporter), every de-duplication order")
-    rep.outside += ["thread schedules (no usable concurrency model of CPython here; the shared writes are the idempotent _compiled_regex and _db caches)", "cross-call history beyond the interpreted functions (module-level EXTRACTORS/default_tokenizer/joke_cite are not mutated by the interpreted code: see functions_encoded)", "order of the candidate-edition tuples themselves (compared as sets)"]
+    rep.outside += ["thread schedules (no usable concurrency model of CPython here; the shared writes are the idempotent _compiled_regex and _db caches)", "cross-call history beyond the frame condition on the tokenizer object (tokenize leaves its attributes unchanged) and the call-sequence replay", "order of the candidate-edition tuples themselves (compared as sets)"]
     rep.stubs += ["set(...): iteration order is an arbitrary permutation (this is the PYTHONHASHSEED variable)", "ahocorasick automata: report every registered word that occurs (occurrence fixed true)", "Tokenizer.append_text: its summary (see C12)", "hash_sha256: injective"]
     findings = []
     agg = common.explore_split("vf.harness.c15", {"part": "tok", "K": K}, depth=4)
@@ -403,6 +570,23 @@ def check(rep):
         rep.violation(f"get_citations({detail['text']!r}) differs between PYTHONHASHSEED={detail['seed_a']} and {detail['seed_b']}: {json.dumps(detail['a'])[:200]} vs {json.dumps(detail['b'])[:200]}", {"kind": "seeds", "texts": texts})
     elif verdict == "error":
         rep.inconc(f"subprocess replay failed: {detail}")
+    # history clause: counter-models of the frame condition are confirmed by call sequences in one process
+    frame_cex = [(p, f) for p, f in cex if f["clause"] == "C15:tokenize_leaves_the_tokenizer_object_unchanged"]
+    cex = [(p, f) for p, f in cex if f["clause"] != "C15:tokenize_leaves_the_tokenizer_object_unchanged"]
+    rep.replays += 1
+    hv, hd = history_replay(TIE_TEXTS[:4] + HISTORY_TEXTS)
+    if hv == "differs":
+        rep.violation(f"get_citations({hd['text']!r}) as call number {hd['call_number']} of one process differs from the same call in a fresh process: {json.dumps(hd['after_history'])[:200]} vs {json.dumps(hd['fresh'])[:200]}", {"kind": "history", "texts": TIE_TEXTS[:4] + HISTORY_TEXTS})
+    elif hv == "error":
+        rep.inconc(f"history replay failed: {hd}")
+    elif frame_cex:
+        # state written during a call and shared by all callers: sequentially harmless here, so try threads
+        rep.replays += 1
+        tv, td = thread_replay(TIE_TEXTS[:4] + HISTORY_TEXTS + ["See Foo v. Bar, 1 U.S. 1, 2 F.2d 3 (1999); id. at 4.", "no citation here", "Id. at 5; supra note 3."])
+        if tv == "differs":
+            rep.violation(f"get_citations({td['text']!r}) from 8 threads sharing the default tokenizer differs from the sequential result: {json.dumps(td['threaded'])[:200]} vs {json.dumps(td['sequential'])[:200]}", {"kind": "threads", "texts": TIE_TEXTS[:4] + HISTORY_TEXTS})
+        else:
+            rep.inconc(f"a tokenize call leaves state behind on the shared tokenizer object ({frame_cex[0][1]['witness']}); the call-sequence replay agrees with fresh processes and a 20 s run of 8 threads did not expose a difference ({tv})")
     if verdict == "same":
         tok_cex = [(p, f) for p, f in cex if p in ("tok", "ref")]
         for p, f in tok_cex[:3]:
@@ -425,6 +609,14 @@ def check(rep):
 
 def replay_file(path):
     r = json.load(open(path))["replay"]
+    if r.get("kind") == "threads":
+        v, d = thread_replay(r["texts"])
+        print(v, d)
+        return 1 if v == "differs" else 0
+    if r.get("kind") == "history":
+        v, d = history_replay(r["texts"])
+        print(v, d)
+        return 1 if v == "differs" else 0
     v, d = seed_replay(r["texts"])
     print(v, d)
     return 1 if v == "differs" else 0
